@@ -121,9 +121,10 @@ Theorem level0_flush_point_api (data : list N) (flags wb : N) sched c rest acc n
   r_status r = TOkay -> N.of_nat (length (r_out r)) < out_len ->
   r_in r = N.of_nat (length (firstn (N.to_nat m) rest)) /\
   n + r_in r <= N.of_nat (length data) /\
-  exists body blocks,
+  (exists body blocks,
     acc ++ r_out r = (if c_block_index (r_comp r) =? 0 then [] else hdr flags wb) ++ body /\
-    prefix_spec body = (Some (firstn (N.to_nat (n + r_in r)) data), 8 * N.of_nat (length body), true, false, blocks).
+    prefix_spec body = (Some (firstn (N.to_nat (n + r_in r)) data), 8 * N.of_nat (length body), true, false, blocks)) /\
+  exists pre, acc ++ r_out r = pre ++ sync_marker.
 Proof.
   intros Hraw Hwb Hbytes Hleg Hsmall Hrun Hpe Hf Hc Hst Hroom.
   assert (Hlf : legal_flush f) by (unfold legal_flush; destruct Hf as [-> | ->]; tauto).
@@ -141,7 +142,7 @@ Proof.
     rewrite (Hrest Hnf). unfold slice. rewrite firstn_min, skipn_length. f_equal. unfold total in *. lia. }
   assert (Hlen : N.of_nat (length (firstn (N.to_nat m) rest)) + 259 < 2 ^ 40).
   { destruct Hsuf as [k ->]. rewrite firstn_length, skipn_length. lia. }
-  destruct (compress_room2 data flags wb Hraw Hwb acc c n _ _ out_len f Hlen Hlf HGI HDz Hpre) as (r' & Er & H1 & _ & H3 & _).
+  destruct (compress_room2 data flags wb Hraw Hwb acc c n _ _ out_len f Hlen Hlf HGI HDz Hpre) as (r' & Er & H1 & _ & H3 & _ & H6).
   rewrite Hc in Er. inversion Er; subst r'. clear Er.
   destruct (H1 Hst Hroom) as [Hp' [X|[Hrin _]]]; [contradiction|].
   destruct (H3 Hst Hroom Hpe Hnn) as (Ht & Hl & Hfin).
@@ -149,5 +150,6 @@ Proof.
   assert (Hleg' : Forall (fun it => legal_flush (snd it)) (sched ++ [(m, out_len, f)])).
   { apply Forall_app. split; [exact Hleg|]. constructor; [exact Hlf|constructor]. }
   destruct (flush_point_decodable data flags wb Hraw Hwb _ _ _ _ _ Hbytes Hleg' Hrun' Hfin Hp' Ht Hl) as (Hn' & body & blocks & Hb1 & Hb2).
-  split; [exact Hrin|]. split; [exact Hn'|]. exists body, blocks. split; [exact Hb1|exact Hb2].
+  split; [exact Hrin|]. split; [exact Hn'|]. split; [exists body, blocks; split; [exact Hb1|exact Hb2]|].
+  destruct (H6 Hst Hroom Hpe Hf) as (pre & Hmk). exists (acc ++ pre). rewrite Hmk, app_assoc. reflexivity.
 Qed.
